@@ -612,16 +612,17 @@ pub fn do_op(sh: &Arc<Shared>, local: &mut TaskLocal, op: &Op) -> OpResult {
             local.slots.remove(slot);
             Ok(0xd)
         }
-        Op::Send { slot } => {
+        Op::Send { slot, to } => {
             let Some(s) = local.slots.remove(slot) else { return Err(OpErr::Skip) };
-            sh.mailbox.lock().unwrap().insert(*slot, s);
-            sh.sched.send(local.id, *slot);
+            let key = *slot * 64 + (*to % 64);
+            sh.mailbox.lock().unwrap().insert(key, s);
+            sh.sched.send(local.id, key);
             sh.probe("object_moved_between_tasks");
             Ok(0x5e4d)
         }
-        Op::Recv { slot } => match sh.sched.recv(local.id, *slot) {
+        Op::Recv { slot } => match sh.sched.recv(local.id, *slot * 64 + (local.id % 64)) {
             Ok(()) => {
-                let s = sh.mailbox.lock().unwrap().remove(slot);
+                let s = sh.mailbox.lock().unwrap().remove(&(*slot * 64 + (local.id % 64)));
                 match s {
                     Some(s) => {
                         local.slots.insert(*slot, s);
@@ -987,39 +988,40 @@ fn concurrent_finalize(sh: &Arc<Shared>, local: &mut TaskLocal, h: usize, n: usi
     {
         let c1 = sc.spawn_child(id);
         let c2 = sc.spawn_child(id);
-        let res = std::thread::scope(|s| {
-            let mut hs_ = Vec::new();
-            for c in [c1, c2] {
-                let sc2 = sc.clone();
-                hs_.push(
-                    std::thread::Builder::new()
-                        .stack_size(TASK_STACK)
-                        .spawn_scoped(s, move || {
-                            sched::set_ctx(Some(sched::TaskCtx { sched: sc2.clone(), id: c, quiet: 0 }));
-                            apply_level(level);
-                            set_in_task(true);
-                            sc2.task_begin(c);
-                            let r = std::panic::catch_unwind(std::panic::AssertUnwindSafe(|| {
-                                let mut out = vec![0u8; n];
-                                href.finalize_xof().fill(&mut out);
-                                let hh = *href.finalize().as_bytes();
-                                (out, hh)
-                            }));
-                            let msg = if r.is_err() { last_panic() } else { String::new() };
-                            blake3::verif::set_platform(None);
-                            sched::set_ctx(None);
-                            sc2.task_end(c);
-                            r.map_err(|_| msg)
-                        })
-                        .expect("spawn"),
-                );
-            }
-            let mine = std::panic::catch_unwind(std::panic::AssertUnwindSafe(|| *href.finalize().as_bytes()));
-            sc.block_join(id, c1);
-            sc.block_join(id, c2);
-            let rs: Vec<_> = hs_.into_iter().map(|h| h.join().expect("child")).collect();
-            (mine, rs)
-        });
+        let cells: Vec<std::sync::Mutex<Option<Result<(Vec<u8>, [u8; 32]), String>>>> =
+            vec![std::sync::Mutex::new(None), std::sync::Mutex::new(None)];
+        let mut handles = Vec::new();
+        for (k, c) in [c1, c2].into_iter().enumerate() {
+            let sc2 = sc.clone();
+            let cell = &cells[k];
+            handles.push(crate::tpool::run_scoped(Box::new(move || {
+                sched::set_ctx(Some(sched::TaskCtx { sched: sc2.clone(), id: c, quiet: 0 }));
+                apply_level(level);
+                set_in_task(true);
+                sc2.task_begin(c);
+                let r = std::panic::catch_unwind(std::panic::AssertUnwindSafe(|| {
+                    let mut out = vec![0u8; n];
+                    href.finalize_xof().fill(&mut out);
+                    let hh = *href.finalize().as_bytes();
+                    (out, hh)
+                }));
+                let msg = if r.is_err() { last_panic() } else { String::new() };
+                set_in_task(false);
+                blake3::verif::set_platform(None);
+                sched::set_ctx(None);
+                *cell.lock().unwrap() = Some(r.map_err(|_| msg));
+                sc2.task_end(c);
+            })));
+        }
+        let mine_ = std::panic::catch_unwind(std::panic::AssertUnwindSafe(|| *href.finalize().as_bytes()));
+        sc.block_join(id, c1);
+        sc.block_join(id, c2);
+        for h in handles.iter_mut() {
+            h.wait();
+        }
+        drop(handles);
+        let rs: Vec<_> = cells.into_iter().map(|c| c.into_inner().unwrap().unwrap_or(Err("child did not run".into()))).collect();
+        let res = (mine_, rs);
         mine = res.0;
         outs.extend(res.1);
     }
